@@ -222,6 +222,8 @@ class Env:
         r = '%s %s HTTP/1.1\r\nHost: 127.0.0.1:%d\r\nX-Verif-Actor: %s\r\n' % (method, self.url(key), self.origin_port, actor)
         if op == 'R':
             r += 'Cache-Control: no-cache\r\n'
+        if op == 'V':
+            r += 'Cache-Control: max-age=0\r\n'      # the cached copy must be revalidated with the origin
         return (r + '\r\n').encode('latin1')
 
     def service_origin(self):
@@ -249,6 +251,15 @@ class Env:
                         continue
                     if (m.get('x-verif-actor') or '') == 'W':
                         self.pending_w.append((oc, m, key))
+                        continue
+                    inm = (m.get('if-none-match') or '').strip()
+                    if inm and key.started >= 1 and key.started in key.complete and inm == key.etag(key.started):
+                        # revalidation of the current version: 304 whose header block has another length than the
+                        # stored one (the stored headers get rewritten in place; the body must stay what it was)
+                        key.n304 = getattr(key, 'n304', 0) + 1
+                        h = ['HTTP/1.1 304 Not Modified', 'Date: ' + ls.http_date(self.sq.now_us), 'ETag: ' + key.etag(key.started),
+                             'Cache-Control: max-age=86400, x-pad=%s' % ('p' * (11 * key.n304)), 'X-Verif-Reval: %d' % key.n304]
+                        self.send_all(oc.c, ('\r\n'.join(h) + '\r\n\r\n').encode('latin1'))
                         continue
                     key.started += 1
                     v = key.started
@@ -363,7 +374,7 @@ def run_ops(env, x):
         tag, v = judge(key, m, contacted, eof)
         sig.append('%s:%s' % (op, tag))
         if v and not vio:
-            vio = 'step %d (%s) of history %s, %d-byte object, store %s: %s' % (i + 1, {'G': 'GET', 'R': 'forced reload'}[op], x['ops'], x['size'], env.store, v)
+            vio = 'step %d (%s) of history %s, %d-byte object, store %s: %s' % (i + 1, {'G': 'GET', 'R': 'forced reload', 'V': 'revalidation (max-age=0, origin answers 304)'}[op], x['ops'], x['size'], env.store, v)
     return sig, vio, len(x['ops'])
 
 
@@ -579,6 +590,11 @@ def space(tier, store):
     if not quick:
         parts['hist'] += [{'size': s, 'ops': ''.join(o), 'framing': 'chunked'} for s in (1, 5000, 70000)
                           for o in itertools.product('GRP', repeat=5)]
+    # histories with revalidations answered by 304 (the stored header block is updated and changes its length;
+    # 3000 bytes: the body shares the last header slice/page; 100000: it spans several)
+    Lv = 4 if quick else 5
+    parts['hist'] += [{'size': s, 'ops': ''.join(o)} for s in ((3000, 100000) if quick else (1, 3000, 5000, 70000, 100000))
+                      for o in itertools.product('GVR', repeat=Lv) if 'V' in o]
     # -- sched
     sch = []
     for size in ((60000, 200000) if quick else (60000, 200000, 500000)):
